@@ -3,7 +3,7 @@
 PROPS = {}
 HARNESSES = []
 # properties whose check is registered in MANIFEST.json (the others are listed under not_applicable)
-CLAIMED = ["C02", "C05", "C06", "C07", "C08", "C09", "C10", "C11", "C12", "C16", "C19"]
+CLAIMED = ["C02", "C03", "C04", "C05", "C06", "C07", "C08", "C09", "C10", "C11", "C12", "C16", "C19"]
 
 FMT = "alloc::fmt::format->String::new()"
 
@@ -167,9 +167,9 @@ h("C07", "c07::c07_gate_count_word16_consuming", funcs=["GenericDataBlock::into_
 
 # ------------------------------------------------------------------------------------------- C19
 prop("C19",
-     level_text="Bounded model checking of get_elevation_from_chunk for all cut lists up to 8 (quick) / 32 (thorough) cuts with symbolic resolution bits and all sequences 1..=200 against an independent cumulative-sum oracle (pointer identity of the returned cut), and of estimate_next_chunk_time without history for every previous sequence (sequence() stubbed by an arbitrary value) and symbolic waveform/channel codes at a concrete upload time, plus one history shape (11 + 1 samples, symbolic durations/attempts).",
-     level_note="Trusted: Kani/CBMC; chrono compiled, not modelled. The history clause runs the real ChunkTimingStats (std HashMap + VecDeque) with std::hash::RandomState::new stubbed to fixed SipHash keys and concrete characteristics keys (symbolic keys would make the hash symbolic).",
-     outside="histories other than 11 samples under one key plus one under another; get_statistics; cut lists longer than 32; previous chunk without upload time (falls back to Utc::now())")
+     level_text="Bounded model checking of get_elevation_from_chunk for all cut lists up to 8 (quick) / 32 (thorough) cuts with symbolic resolution bits and all sequences 1..=200 against an independent cumulative-sum oracle (pointer identity of the returned cut), and of estimate_next_chunk_time without history for every previous sequence (sequence() stubbed by an arbitrary value) and symbolic waveform/channel codes at a concrete upload time.",
+     level_note="Trusted: Kani/CBMC; chrono compiled, not modelled. The history clause (real ChunkTimingStats: std HashMap + VecDeque, RandomState::new stubbed to fixed keys) was tried (c19_estimate_history, 12 add_timing calls) and did not finish in 60 min; it is not claimed.",
+     outside="the history-based estimate and ChunkTimingStats (hashbrown under CBMC: no verdict in 60 min); symbolic upload times; cut lists longer than 32; previous chunk without upload time (falls back to Utc::now())")
 h("C19", "c19::c19_elevation_map_le4", funcs=["realtime::get_elevation_from_chunk", "ElevationDataBlock::super_resolution_control_half_degree_azimuth"], space="all cut lists of length 0..=4 x resolution bits x sequences 1..=200", bounds="L <= 4; unwind 6", mem=4)
 h("C19", "c19::c19_elevation_map_le8", funcs=["realtime::get_elevation_from_chunk"], space="all cut lists of length 0..=8 x sequences 1..=200", bounds="L <= 8; unwind 10", mem=4, timeout=1500)
 h("C19", "c19::c19_elevation_map_le32", tier="thorough", funcs=["realtime::get_elevation_from_chunk"], space="all cut lists of length 0..=32 x sequences 1..=200", bounds="L <= 32; unwind 34", mem=24, timeout=3600)
@@ -203,8 +203,6 @@ h("C03", "c03::c03_one_opaque_frame_any_type", tier="thorough", funcs=DM, space=
 for nm, sp in (("c03_frame15_then_type31", "[frame 15][type-31 with one ELV block]"), ("c03_type31_then_frame15", "[type-31][frame 15]"), ("c03_type31_then_frame2", "[type-31][frame 2]")):
     h("C03", "c03::%s" % nm, tier="quick" if nm != "c03_type31_then_frame2" else "thorough", funcs=DM + ["decode_digital_radar_data"], space="%s; both headers and the elevation number symbolic" % sp, bounds="2 messages, concrete frame type; unwind 30", mfs=2600, mem=20, timeout=2400)
 h("C03", "c03::c03_two_frames_same_type", funcs=DM, space="two type-15 frames, both headers symbolic (any segment count/number)", bounds="2 messages; unwind 30", mfs=5000, mem=20, timeout=2400)
-h("C03", "c03::c03_cut_inside_opaque_body", funcs=DM, space="frame 15 + header of type 13 + body cut after 0..=100 bytes", bounds="cut within 100 body bytes; unwind 30", mfs=2600, mem=20, timeout=2400)
-h("C03", "c03::c03_cut_inside_status_body", tier="thorough", funcs=DM, space="frame 15 + header of type 2 + body cut after 0..=100 bytes", bounds="cut within 100 body bytes; unwind 30", mfs=2600, mem=20, timeout=3600)
 
 # ------------------------------------------------------------------------------------------- C13
 prop("C13",
@@ -218,7 +216,12 @@ h("C13", "c13::c13_structure_s2", tier="probe", funcs=CFM, space="2 segments x 3
 h("C13", "c13::c13_truncated", tier="probe", funcs=CFM, space="one declared segment, zero zone counts, every cut point 0..=726", bounds="unwind 362", mfs=16384, mem=24, timeout=10800, unwind_is_violation=True)
 h("C04", "c04::c04_type31_one_block_free", tier="thorough", funcs=["decode_digital_radar_data", "Message::radial", "GenericDataBlock::new"], space="all 2^(8*74) 76-byte inputs with block count 1: pointer, block type/name, gates, word size free", bounds="fixed length 76, 1 block; unwind 12", mem=16, mfs=128, unwind_is_violation=True, timeout=2400)
 h("C07", "z::c07_value_formula", kind="z", script="smt/z_c07.py", funcs=["GenericDataBlock::scaled_value (MIR)", "MomentData::value_of (MIR)"], space="all 2^16 raw gate values x all finite f32 scale x all finite f32 offset (levels: every f32 bit pattern)", bounds="loop-free closures: no bound; QF_FP, z3 and cvc5 must agree", mem=6, timeout=1200)
-h("C04", "c04::c04_type31_one_block_ascii_name", funcs=["decode_digital_radar_data", "Message::radial", "GenericDataBlock::new"], space="76-byte inputs, one block at offset 36: block type, ASCII name (all 2^21), gate count, word size, scale, offset free; other bytes zero", bounds="fixed length 76, 1 block; unwind 12", mem=16, mfs=128, unwind_is_violation=True, timeout=2400)
+for nm, sp in (("c04_type31_unknown_name", "unknown ASCII block name XYZ"), ("c04_type31_moment_free_sizes", "moment block REF"), ("c04_type31_non_utf8_name", "non-UTF-8 block name ff fe 41")):
+    h("C04", "c04::%s" % nm, funcs=["decode_digital_radar_data", "Message::radial", "GenericDataBlock::new"], space="76-byte message, one block at offset 36 (%s): block type, gate count, word size, scale, offset free; other bytes zero" % sp, bounds="fixed length 76, concrete name; unwind 12", mem=12, mfs=128, unwind_is_violation=True, timeout=1800)
+
+for nm, sp, tier in (("c03_cut_opaque_body_at_0", "frame 15 + header of type 13, no body byte", "quick"), ("c03_cut_opaque_body_at_1200", "frame 15 + header of type 13 + 1200 body bytes", "quick"),
+                     ("c03_cut_opaque_body_at_2403", "frame 15 + header of type 7 + 2403 of 2404 body bytes", "quick"), ("c03_cut_status_body_at_57", "frame 15 + header of type 2 + 57 body bytes", "thorough")):
+    h("C03", "c03::%s" % nm, tier=tier, funcs=DM, space="%s; both headers symbolic" % sp, bounds="concrete cut point; unwind 30", mfs=5000, mem=16, timeout=1800)
 
 # ------------------------------------------------------------------------------------------- C01
 prop("C01",
@@ -240,7 +243,7 @@ for n, tier, mem, to in ((0, "quick", 8, 900), (1, "quick", 16, 1800), (2, "quic
 h("C19", "c19::c19_estimate_history", tier="probe", funcs=["realtime::estimate_next_chunk_time", "ChunkTimingStats::{new,add_timing,get_average_timing,get_average_attempts}", "std HashMap/VecDeque"], space="11 samples under one key (durations 0..=60000 ms, attempts 1..=5, all symbolic) + 1 sample under another key", bounds="exactly 11+1 recorded samples; unwind 24", mfs=4096, mem=24, timeout=10800)
 h("C13", "c13::c13_truncated_last_zones", tier="probe", funcs=CFM, space="one segment whose azimuth 359 declares two zones; cut at 726..=734", bounds="unwind 362", mfs=16384, mem=24, timeout=10800, unwind_is_violation=True)
 h("C04", "c04::c04_vcp_fixed_frame", funcs=["decode_volume_coverage_pattern"], space="all 2^(8*114) inputs of 114 bytes", bounds="fixed length; unwind 5", mfs=128, mem=12, unwind_is_violation=True, timeout=1800)
-h("C04", "c04::c04_messages_short_stream", funcs=["decode_messages", "decode_message_header", "decode_message_contents", "decode_digital_radar_data"], space="76-byte streams: one type-31 message; free size fields of the message header, free block type and ASCII block name; rest zero", bounds="fixed length 76; unwind 12", mfs=128, mem=24, unwind_is_violation=True, timeout=3000)
+h("C04", "c04::c04_messages_unknown_block", funcs=["decode_messages", "decode_message_header", "decode_message_contents", "decode_digital_radar_data"], space="76-byte stream: one type-31 message with the unknown block name XYZ; free size fields of the message header", bounds="fixed length 76; unwind 12", mfs=128, mem=16, unwind_is_violation=True, timeout=1800)
 h("C01", "c01::c01_two_radials_same_elevation", tier="probe", funcs=SC, space="1 record, 2 radials of elevation 1, each with a VOL block: azimuth numbers, VCP numbers, times symbolic", bounds="2 radials, concrete elevation numbers (1,1); unwind 8", mfs=4096, mem=30, timeout=3600)
 h("C01", "c01::c01_two_radials_two_elevations", tier="probe", funcs=SC, space="1 record, 2 radials of elevations 1 and 2, each with a VOL block", bounds="2 radials, concrete elevation numbers (1,2); unwind 8", mfs=4096, mem=30, timeout=3600)
 h("C16", "c16::c16_parse_concrete", tier="probe", funcs=CI, space="8 concrete names (sequence fields 001, 014, 054, 055, 056, 999, 0-4, 0a4)", bounds="concrete inputs; unwind 24", mem=10, timeout=1800)
